@@ -291,3 +291,24 @@ def _cell(v):
     if isinstance(v, float):
         return ["f", v.hex()]
     return [type(v).__name__, repr(v)]
+
+
+def snap_deep(x, depth=0):
+    """Like snap(), but descends into the attributes of library objects (diagnostics: did a database / metric object's
+    private state change?).  Never used as an oracle."""
+    d = getattr(x, "__dict__", None)
+    if isinstance(d, dict) and not isinstance(x, (type, types.FunctionType)) and depth < 4:
+        return ["obj", type(x).__name__, [[k, snap_deep(v, depth + 1)] for k, v in sorted(d.items())]]
+    if isinstance(x, dict) and depth < 4:
+        return ["dict", len(x), digest_light(x)]
+    return snap(x, depth)
+
+
+def digest_light(d):
+    import hashlib
+
+    h = hashlib.sha256()
+    for k in d:
+        h.update(repr(k).encode())
+        h.update(repr(d[k])[:200].encode())
+    return h.hexdigest()[:12]
